@@ -30,6 +30,11 @@ CHECKS = {
    note="Trusted: reference models in the harness; distinct LWW timestamps; equality of states judged by Read now and after identical continuations (sound, may miss differences no continuation in the sample exposes).",
    technique="deterministic simulation at replica level: seeded operation/delivery/duplication/loss sequences, reference-model and algebraic-law oracles over the recorded history, shrunk replay files",
    ref="6 (C12)"),
+ "C01": dict(
+   text="Seeded search over programs of critical sections (1-6 sections x 1-6 operations) bound to drawn mixes of 1-5 REAL resources (archetype local, cell, indexed cell, IncMap, HashMap, InputChan, OutputChan, LocalShared, Persistent on in-memory badger, FileSystem on a simulated disk, TCP mailboxes to/from peer archetypes over a simulated network) running in the real MPCalContext.Run under a simulator-owned scheduler and clock; attempts fail at drawn positions (false await after k operations; any resource refusing its n-th read/write/index/pre-commit; real read time-outs, refused dials, stalls). Every read is compared with a reference model (last committed state + the attempt's own writes; inputs consumed by a failed attempt are offered again in order); emitted outputs, messages delivered to the peer, files and database records are compared with the committed model at the end.",
+   note="Trusted: overlay instrumentation R1-R5; reference models in verif/ulib; kinds not in this mix (relaxed mailboxes, CRDT, 2PC, nested archetype, raft log/channel resources) have their abort/commit atomicity exercised by C06/C11/C13/C16. Known finding recorded: committed TCP-mailbox batches can be reordered across a sender reconnect.",
+   technique="deterministic simulation: seeded programs, fault positions and schedules over overlay-instrumented real resources; per-read reference-model oracle; shrunk, fresh-process-verified replay files",
+   ref="6 (C01)"),
 }
 PENDING = "check not built yet in this session (planned, see DESIGN.md section 6); not claimed until its harness passes the determinism self-test"
 
